@@ -87,7 +87,7 @@ def parseDecLit (v : List Rune) : Option DecLit :=
       | none => none
     else none
 
-def decDigits (n : Nat) : Nat := (Nat.toDigits 10 n).length
+def decDigitCount (n : Nat) : Nat := (Nat.toDigits 10 n).length
 
 /-- `strconv.ParseFloat(text, 32)` on a decimal constant: `none` = syntax or range error.
 Magnitudes far outside the binary32 range are decided without building the power of ten. -/
@@ -97,7 +97,7 @@ def decodeFloat32 (v : List Rune) : Option UInt32 :=
   | some ⟨m, e⟩ =>
     if m == 0 then some 0
     else
-      let mag : Int := (decDigits m : Int) + e      -- 10^(mag-1) ≤ value < 10^mag
+      let mag : Int := (decDigitCount m : Int) + e      -- 10^(mag-1) ≤ value < 10^mag
       if mag > 40 then none
       else if mag < -60 then some 0
       else if e ≥ 0 then ratToF32Bits (m * 10 ^ e.toNat) 1
